@@ -220,6 +220,13 @@ func buildCases(thorough bool) []tcase {
 			}
 			return "{ thing { echo(" + args + ") } }"
 		}
+		// two aliased fields, so that two variables can both sit at a direct argument
+		field2 := func(args1, args2 string) string {
+			if target == "root" {
+				return "{ x: echo(" + args1 + ") y: echo(" + args2 + ") }"
+			}
+			return "{ thing { x: echo(" + args1 + ") y: echo(" + args2 + ") } }"
+		}
 		for _, p := range positions() {
 			for _, sp := range spellings(thorough) {
 				ok := false
@@ -268,9 +275,40 @@ func buildCases(thorough bool) []tcase {
 						out = append(out, tcase{query: "query Q($b: " + vt + ", $a: String) " + field(strings.ReplaceAll(render("$v"), "$v", "$b")+", s: $a"), form: "variables named b then a", pos: p.name, sp: sp, target: target, vars: map[string]any{"__named": "b", "a": "second"}, hasVar: true})
 					}
 					out = append(out, tcase{query: "query Q($v: " + vt + ", $w: String) " + field(render("$v")+", s: $w"), form: "two variables one omitted", pos: p.name, sp: sp, target: target, vars: map[string]any{"v": nil}})
+					// colliding names in non-canonical order with ONE of them omitted: an
+					// omitted variable stays omitted, it never takes the other one's value
+					if !strings.HasPrefix(p.name, "whole") && sp.kind == "string" {
+						q := "query Q($b: " + vt + ", $a: String) " + field2(strings.ReplaceAll(render("$v"), "$v", "$b"), "s: $a")
+						out = append(out, tcase{query: q, form: "variables named b then a, both given", pos: p.name, sp: sp, target: target, vars: map[string]any{"__named": "b", "a": "second"}, hasVar: true})
+						out = append(out, tcase{query: q, form: "variables named b then a, b omitted", pos: p.name, sp: sp, target: target, vars: map[string]any{"__named": "b", "__omit": "b", "a": "second"}, hasVar: true})
+						out = append(out, tcase{query: q, form: "variables named b then a, a omitted", pos: p.name, sp: sp, target: target, vars: map[string]any{"__named": "b", "__omit": "a", "a": "second"}, hasVar: true})
+					}
 				}
 			}
 		}
+		// two literals in ONE operation at positions of the same type, one being a
+		// string whose content is the JSON spelling of the other (a non-string):
+		// they are different values and must stay different variables
+		twin := func(arg, x, y, class string) {
+			for _, pair := range [][2]string{{x, y}, {y, x}} {
+				body := "x: echo(" + arg + ": " + pair[0] + ") y: echo(" + arg + ": " + pair[1] + ")"
+				q := "query Q { " + body + " }"
+				if target == "entity" {
+					q = "query Q { thing { " + body + " } }"
+				}
+				out = append(out, tcase{query: q, form: "literal pair", pos: "two fields", sp: spelling{pair[0], "json", class}, target: target})
+			}
+		}
+		twin("j", "1", `"1"`, "twin literals: int and its spelling as a string (custom scalar)")
+		twin("j", "true", `"true"`, "twin literals: boolean and its spelling as a string (custom scalar)")
+		twin("j", "null", `"null"`, "twin literals: null and its spelling as a string (custom scalar)")
+		twin("j", "1.5", `"1.5"`, "twin literals: float and its spelling as a string (custom scalar)")
+		twin("j", "[1]", `"[1]"`, "twin literals: list and its spelling as a string (custom scalar)")
+		twin("j", "{k: 1}", `"{\"k\":1}"`, "twin literals: object and its spelling as a string (custom scalar)")
+		twin("id", "1", `"1"`, "twin literals: int and its spelling as a string (ID)")
+		twin("id", "null", `"null"`, "twin literals: null and its spelling as a string (ID)")
+		twin("s", "null", `"null"`, "twin literals: null and its spelling as a string (String)")
+		twin("e", "null", "RED", "twin literals: null and an enum value")
 	}
 	return out
 }
@@ -399,6 +437,9 @@ func TestCheck(t *testing.T) {
 			}
 			vars["b"] = refexec.LitValue(vdoc.Operations[0].VariableDefinitions[0].DefaultValue)
 			vars["a"] = "second"
+			if om, _ := c.vars["__omit"].(string); om != "" {
+				delete(vars, om)
+			}
 		} else if c.hasVar {
 			lit := c.vars["__literal"].(string)
 			vdoc, verr := parser.ParseQuery(&gast.Source{Input: "query Q($x: " + c.vars["__type"].(string) + " = " + lit + ") { echo }"})
